@@ -309,4 +309,24 @@ PROPS = {
             "size(): int() of the command output may raise ValueError for non-ASCII digits (not excluded)",
         ],
     },
+    "C09": {
+        "category": "other",
+        "harness_modes": ["crosscheck"],
+        "explanation": "Fragment. Cache coherence is an invariant — every cached row equals the stored row — that each public operation must preserve. Proved for every "
+        "cache content, id and update: update_deployment / update_filter / update_port / update_step / update_target / update_workflow drop exactly the entry `id` from the "
+        "cache of THEIR table, leave every other entry of that cache and all six other caches as they were (frame obligations), and return the id; update_execution touches "
+        "no cache. For the six cached getters the arguments of the @cached decorator are read from the real source (decorator units): the cache named by the lambda is the "
+        "cache that the matching update_* invalidates (identity of the cache object, for every heap), and rows are handed out through postprocess_deepcopy_mutables (a caller "
+        "editing a returned row, at any depth, cannot reach the cached one). On the pinned tree the second clause failed (shallow copies; repaired in /repo, fix 795c2d3). "
+        "NOT decided by proof: the SQL text (that update_x updates table x, that get_x selects by id), the behaviour of cachebox.cached itself (key = the id, miss => call and "
+        "insert, hit => postprocess(cached)), the uncached multi-row getters, and interleavings of a read with an update on the event loop. Covered by the bounded run-time "
+        "histories of harness/C09.py: random inserts, updates, reads and in-place edits of returned rows over all seven tables, every row compared after every step with the "
+        "uncached function under the decorator.",
+        "assumptions": [
+            "cachebox 6.2 (read from its Python sources _wrappers.py/utils.py): the key of cached(cache=lambda self: ...) for one int argument is that int (self excluded); a hit returns postprocess(cached value); LRUCache(maxsize=sys.maxsize) never evicts",
+            "extern contracts: SqliteConnection.__aenter__, Db.execute (arguments not evaluated: the SQL text and parameters are not analysed), Stmt.__aenter__",
+            "decorator units read only the keyword arguments of @cached(...); a lambda is applied to `self`, any other argument is compared as source text",
+            "in this sandbox the native driver runs against devshim/cachebox (pure Python stand-in written from those sources), not the compiled cachebox",
+        ],
+    },
 }
